@@ -3,7 +3,9 @@ claim("C20", "DESIGN.md §2 C20",
       "property-based testing: exhaustive enumeration of integer neighbourhoods + Hypothesis integers/strings against an exact Decimal oracle",
       "Every integer within +-1500 (thorough +-20000) of ~90 anchors (powers of ten, digit-length boundaries, 2^46..2^57, 2^53, "
       "the supply bound) and their negatives is enumerated, plus generated integers over |n|<=2.1e17 and grammar-derived "
-      "strings with one defect each; the oracle is exact Decimal arithmetic. The function is a pure formatter/parser, so "
+      "strings with one defect each; the oracle is exact Decimal arithmetic. The two callers that carry user amounts through the conversion are "
+      "generated too: dict_values_to_lbc over nested balance dictionaries with negative deltas, and the fee path ExchangeRateManager.to_dewies on "
+      "exactly written LBC amounts (result equals the amount or is rejected, never another integer). The function is a pure formatter/parser, so "
       "dense enumeration around every representation boundary plus random sampling is the right level.",
       "Trusts decimal.Decimal and Python ints; values between the enumerated neighbourhoods are only sampled.")
 claim("C03", "DESIGN.md §2 C03",
@@ -30,9 +32,11 @@ claim("C09", "DESIGN.md §2 C09",
       "claim, support, abandon, 12 kinds of third-party output script, mining, sequential / concurrent / duplicate / stale delivery of "
       "address notifications with a gate scheduler ordering every database and network call) run against the real Ledger.update_history "
       "and Database; after each round the wallet's per-address history, balances (spendable, with claims, and the detailed view "
-      "total / available / reserved / claims / supports), UTXO id set and address gap are compared with an independent chain model. Histories and schedules are sampled: exploration level.",
-      "Server model follows the ElectrumX/LBRY-hub conventions stated in the evidence assumptions; headers are empty so Merkle "
-      "verification is skipped here (C08); <=45 ops per history.")
+      "total / available / reserved / claims / supports), UTXO id set and address gap are compared with an independent chain model. The "
+      "wallet's header store is empty, follows the server's blocks to the tip, or stays one block behind (headers with the model's Merkle roots, "
+      "server answers with matching branches), so confirmed transactions are also synced as verified ones. Histories and schedules are sampled: exploration level.",
+      "Server model follows the ElectrumX/LBRY-hub conventions stated in the evidence assumptions; the chain never reorganises "
+      "(the property's quantifier); <=45 ops per history.")
 claim("C16", "DESIGN.md §2 C16",
       "property-based testing: Hypothesis-built claims/supports/purchases and grammar-generated URLs; round-trip, accessor read-back vs model, plain protobuf parse, reference URL parser; exhaustive enum sweeps",
       "Claims of all four types are assembled through the accessor API / update(**kwargs) from generated values (unicode text, boundary "
@@ -62,7 +66,9 @@ claim("C08", "DESIGN.md §2 C08",
       "position bit flipped, one bit flipped in every branch element, and shortened / lengthened branches; generated cases add chains "
       "of stored headers, real serialised transactions and 24 mutation kinds (other height, unknown height, height<=0, tx byte changed, "
       "reply without merkle), delivered as argument and through a stub network; a 'history' part drives reorganisations through "
-      "Ledger.update_headers and re-verifies through the cached request_transactions path. Oracle: is_verified <=> reference fold of the supplied "
+      "Ledger.update_headers and re-verifies through the cached request_transactions path; a 'resync' part syncs a wallet address through "
+      "the real Ledger.update_history / Database, reorganises the chain so that the transaction sits in a later / earlier / other block or "
+      "is back in the mempool, syncs again and reads what the wallet recorded (verified only at a height whose stored header commits to it). Oracle: is_verified <=> reference fold of the supplied "
       "branch/position equals the root read from the stored header bytes and 0 < height < stored headers.",
       "Reference Merkle code self-tested on Bitcoin blocks 170 and 100000; side-neutral mutations are a stated don't-care; headers are "
       "written into the store directly (their validation is C07).")
@@ -75,7 +81,9 @@ claim("C10", "DESIGN.md §2 C10",
       "of everything the server wrote; real client vs scripted server applying one of 39 misbehaviours at request position 0..2, then an "
       "honest transfer on a fresh connection; plus two/three honest servers racing for one blob, and BlobDownloader.download_blob with "
       "generated, different peer_connect_timeout / blob_download_timeout against slow-but-honest, mute, refusing and unreachable "
-      "peers (honest must deliver, each attempt / unanswered request must end within its own timeout). Timeouts are judged on the "
+      "peers (honest must deliver, each attempt / unanswered request must end within its own timeout); and the real server behind a "
+      "flow-controlled slow link on which a transfer lasts longer than the idle time-out but shorter than the transfer time-out (must "
+      "complete, also after earlier transfers on the connection) or longer than the transfer time-out (must be cut off). Timeouts are judged on the "
       "virtual clock. Sampled: exploration level.",
       "TCP is modelled by in-memory transports (connection_lost for RST/FIN, asyncio's fatal-error rule for exceptions in "
       "data_received); replies that still deliver exactly the right bytes are a don't-care for verification.")
@@ -86,7 +94,8 @@ claim("C11", "DESIGN.md §2 C11",
       "the real routing table through KademliaProtocol._add_peer with a fake transport answering each ping as generated (pong / "
       "silence / error). After every step: buckets cover [0,2^384) exactly once, contacts in the right bucket, <=K per bucket, unique "
       "ids and addresses, get_peer agrees with the model; find_close_peers equals the sorted model exactly; displacement only after a "
-      "failed probe; admission of contacts closer than the K-th closest.",
+      "failed probe of the contact at its current endpoint (also when the probed contact refreshes from a new endpoint while the ping "
+      "to its old one is in flight); admission of contacts closer than the K-th closest.",
       "Histories are sampled (<=100 ops); whether a contact whose probe failed is actually dropped is a don't-care.")
 claim("C17", "DESIGN.md §2 C17",
       "property-based testing / structured fuzzing: protocol messages vs an independent bencode implementation; generated garbage (all truncations, 1-3 edits, nesting bombs, schema deviations) fed to the real datagram handler with state comparison",
@@ -118,7 +127,9 @@ claim("C04", "DESIGN.md §2 C04",
       "Input.spend_time_lock + sign(accounts, extra key), verified over the redeem script. Channel-signed streams/reposts/collections/supports: the reference "
       "recomputes sha256(first outpoint || channel hash || message) from raw bytes and verifies the compact signature; is_signed_by must be "
       "True in memory and after a raw round trip and never True after any generated mutation (bit flips incl. full payload sweeps, other "
-      "channel, other first input). Three real main-net legacy examples and reference-signed legacy-style claims must validate.",
+      "channel, other first input). Three real main-net legacy examples and reference-signed legacy-style claims must validate; each parsed "
+      "legacy claim is then detached (clear_signature) and signed by another channel: the new signature must validate in memory, after a raw "
+      "round trip and under the reference.",
       "Reference crypto self-tested on RFC 6979 and block-170 vectors; mutations decoding to the identical protobuf message are a don't-care.")
 claim("C05", "DESIGN.md §2 C05",
       "differential property testing against an independent Bitcoin transaction encoder/decoder (legacy + BIP144), round trip and txid, plus real main-net raws",
@@ -147,7 +158,8 @@ claim("C07", "DESIGN.md §2 C07",
       "re-mining (exactly one rule broken), retarget clamps and negative spans, checkpointed chunk fetches with 8 bad-chunk variants, restarts "
       "after the file is cut at a byte offset or k bytes of a header above the checkpoint are overwritten. Enumerated: retarget arithmetic for "
       "spans -40..800 s x bits shapes, every byte flip of the real headers, every header above the checkpoint x 11 field offsets and every "
-      "cut offset in the last headers before reopen.",
+      "cut offset in the last headers before reopen. Bits alterations include the compact format's sign bit; a two-checkpoint "
+      "configuration (chunks at 0 and 1000 over a mined chain of 2150 headers) is reopened with either chunk cut, zero-padded or damaged.",
       "Proof-of-work inputs are limited to easy targets (mining must be feasible); hashes in the band between the compact-expanded and the "
       "next mantissa step are a don't-care; forks below the checkpointed chunk are not generated.")
 claim("C12", "DESIGN.md §2 C12",
